@@ -19,6 +19,7 @@ import (
 	"bytes"
 	"encoding/binary"
 	"fmt"
+	"io"
 
 	opb "github.com/google/gce-tcb-verifier/proto/ovmf"
 	"github.com/google/uuid"
@@ -424,8 +425,9 @@ func TDXMetadataFromBytes(data []byte) (*TDXMetadata, error) {
 	buf := bytes.NewReader(data[SizeofTDXMetadataDescriptor:])
 	for i := uint32(0); i < hdr.SectionCount; i++ {
 		var sectionBytes [SizeofTDXMetdataSection]byte
-		// Errors are unreachable given the size check above.
-		buf.Read(sectionBytes[:])
+		if _, err := io.ReadFull(buf, sectionBytes[:]); err != nil {
+			return nil, fmt.Errorf("could not read TDX metadata section %d: %v", i, err)
+		}
 		section, _ := TDXMetadataSectionFromBytes(sectionBytes[:])
 		sections = append(sections, section)
 	}
